@@ -126,6 +126,11 @@ def mk_rich(cx, tag, kind):
         o, _ = lib.mk_obs(cx, tag, {'e|r1': [2, 4, 6, 8, 10, 12]})
     elif kind == 'irregular':
         o, _ = lib.mk_obs(cx, tag, {'e|r1': [1, 2, 4, 5, 7, 8]})
+    elif kind == 'odd':
+        o, _ = lib.mk_obs(cx, tag, {'e|r1': [1, 3, 5, 7, 9], 'e|r2': [1, 2, 3, 4, 5]})
+    elif kind == 'even':
+        # same stride as 'odd' on the shared replica, other offset
+        o, _ = lib.mk_obs(cx, tag, {'e|r1': [2, 4, 6, 8, 10, 12], 'e|r2': [4, 6, 8, 10, 12]})
     elif kind == 'rangelike':
         # irregular lists that share length, end points and first stride with a range
         o, _ = lib.mk_obs(cx, tag, {'e|r1': [1, 3, 4, 7, 9], 'e|r2': [2, 4, 5, 6, 10, 12]})
@@ -148,6 +153,13 @@ def mk_rich(cx, tag, kind):
         c, _ = lib.mk_covobs(cx, tag + 'c', 'cy', 1)
         d, _ = lib.mk_covobs(cx, tag + 'd', 'cw', 2)
         o = a + 2 * c - d
+    elif kind in ('jack', 'jackmix'):
+        # an imported jackknife estimate of a non-linear quantity: central value (first entry) differs from the replica mean of a single-replica ensemble
+        jacks = np.array([cx.real('%s_j%d' % (tag, k)) for k in range(6)], dtype=object if cx.mode == 'sym' else float)
+        o = pe.import_jackknife(jacks, 'e|r1')
+        if kind == 'jackmix':
+            b, _ = lib.mk_obs(cx, tag + 'b', {'f|r1': [2, 4, 6, 8, 10], 'f|r2': [1, 2, 3, 4, 5]})
+            o = o * b + b
     elif kind == 'reweighted':
         w, _ = lib.mk_obs(cx, tag + 'w', {'e|r1': [1, 2, 3, 4, 5, 6]})
         a, _ = lib.mk_obs(cx, tag + 'a', {'e|r1': [1, 2, 3, 5, 6]})
@@ -374,6 +386,8 @@ def jobs(tier, seed):
     add('obs', kinds=['rangelike', 'rangelike2'], tags=[None, None])
     add('obs', kinds=['replicas', 'sep', 'reweighted'], tags=[[1, 'a'], {'k': 1.5}, True])
     add('obs', kinds=['multi', 'cov', 'covmix'], tags=['m', None, 2.5])
+    add('obs', kinds=['jack', 'jackmix'], tags=[None, 'j'])
+    add('obs', kinds=['odd', 'even'], tags=[None, None])
     for w in ('list', 'list-cov', 'array', 'array3', 'corr', 'corr-none-tag', 'corr-matrix-none', 'corr-pad-prange-tag', 'corr-matrix-prange'):
         add('struct', which=w)
     add('dict')
